@@ -27,6 +27,8 @@ pub enum Arg {
     Str(String),
     Bool(bool),
     Null,
+    /// floats whose display is their literal (1.5, 0.25, ...)
+    Float(f64),
 }
 
 impl Arg {
@@ -36,6 +38,7 @@ impl Arg {
             Arg::Str(s) => format!("\"{}\"", s),
             Arg::Bool(b) => b.to_string(),
             Arg::Null => "null".into(),
+            Arg::Float(f) => format!("{:?}", f),
         }
     }
     fn display(&self) -> String {
@@ -44,6 +47,7 @@ impl Arg {
             Arg::Str(s) => s.clone(),
             Arg::Bool(b) => b.to_string(),
             Arg::Null => "null".into(),
+            Arg::Float(f) => format!("{:?}", f),
         }
     }
 }
@@ -161,7 +165,7 @@ pub fn gen_case(bytes: &[u8]) -> Case {
     let nargs = c.below(7);
     let mut args: Vec<Arg> = Vec::new();
     for _ in 0..nargs {
-        args.push(match c.below(8) {
+        args.push(match c.below(9) {
             0..=2 => Arg::Int(match c.below(4) {
                 0 => c.range(0, 9),
                 1 => c.range(0, 70000),
@@ -171,6 +175,7 @@ pub fn gen_case(bytes: &[u8]) -> Case {
             3 | 4 => Arg::Str(c.pick_s(&["", "a", "abc", "hello world", "x y", "12", "-", "A", "zz"]).to_string()),
             5 => Arg::Bool(c.bool()),
             6 => Arg::Null,
+            8 => Arg::Float(*c.pickv(&[1.5f64, 0.25, -2.5, 3.75, 100.5, -0.125])),
             _ => Arg::Str(c.pick_s(&["é", "日本", "💖"]).to_string()),
         });
     }
